@@ -42,6 +42,8 @@ From RX.Spec Require Cst.
 From RX.Proofs Require Import CharTablesProofs RejectProofs WfParseTok WfParseChars WfParse CstSound CstSoundDoc CstSoundCor TruncMain TruncDtdMain CstSoundU CstSoundUDoc CstSoundUCor CstSoundT CstSoundTDoc CstSoundTCor NsRejDefs NsRejBuild NsRejMain CstNsView CstFullMain CstSoundN CstSoundNDoc CstSoundNCor.
 From RX.Spec Require CstU CstText CstNs CstFull CstFullS5.
 From RX.Proofs Require CstSoundP CstSoundPRDoc CstSoundPRCor.
+From RX.Spec Require CstFullS4 CstFullS6.
+From RX.Proofs Require CstSound6P CstSound6 CstSound6U CstSound6uCor CstFullS6Main CstFullRejSem CstFullRejTrace CstFullRejDoc CstFullRejMain CstFullNsRejMain.
 Open Scope N_scope.
 
 (* ---- Proofs/CharTablesProofs.v ---- *)
@@ -416,8 +418,49 @@ Print Assumptions C08_parse_sound_and_complete_p.
 
 End G14.
 
-(* ---- Proofs/NsRejMain.v ---- *)
+(* ---- Proofs/CstSound6P.v ---- *)
 Module G15.
+Import RX.Spec.CstFull. Import RX.Spec.CstFullS5. Import RX.Spec.CstFullS6. Import RX.Proofs.CstNsView. Import RX.Proofs.CstSoundP. Import RX.Proofs.CstSound6P.
+Theorem C08_parse_sound_fragment_6_on_p :
+  forall text opt d,
+  in_fragment_p text = true -> allow_dtd opt = true -> parse text opt = Ok d ->
+  exists c : S6.doc, S6.wf_doc c = true /\ S6.render c = text.
+Proof. exact parse_sound_fragment_6_on_p. Qed.
+Print Assumptions C08_parse_sound_fragment_6_on_p.
+
+Theorem C08_parse_sound_and_complete_6_on_p :
+  forall text opt d,
+  in_fragment_p text = true -> allow_dtd opt = true -> parse text opt = Ok d ->
+  N.of_nat (length text) <= nodes_limit opt -> N.of_nat (length text) <= u32_max ->
+  exists c : S6.doc, S6.wf_doc c = true /\ S6.render c = text /\ CstNsView.view text d = Some (S6.sem c).
+Proof. exact parse_sound_and_complete_6_on_p. Qed.
+Print Assumptions C08_parse_sound_and_complete_6_on_p.
+
+End G15.
+
+(* ---- Proofs/CstSound6uCor.v ---- *)
+Module G16.
+Import RX.Spec.CstFull. Import RX.Spec.CstFullS5. Import RX.Spec.CstFullS6. Import RX.Proofs.CstNsView. Import RX.Proofs.CstSoundP. Import RX.Proofs.CstSound6. Import RX.Proofs.CstSound6U. Import RX.Proofs.CstSound6uCor.
+Theorem C08_parse_sound_fragment_6u :
+  forall text opt d,
+  in_fragment_6u text = true -> allow_dtd opt = true -> parse text opt = Ok d ->
+  exists c : S6.doc, S6.wf_doc c = true /\ S6.render c = text.
+Proof. exact parse_sound_fragment_6u. Qed.
+Print Assumptions C08_parse_sound_fragment_6u.
+
+Theorem C08_parse_sound_and_complete_6u :
+  forall text opt d,
+  in_fragment_6u text = true -> allow_dtd opt = true -> parse text opt = Ok d ->
+  exists c : S6.doc, S6.wf_doc c = true /\ S6.render c = text /\
+    (N.of_nat (length (S6.sem c)) < nodes_limit opt -> N.of_nat (length (S6.sem c)) < u32_max -> N.of_nat (S6.nattrs c) < u32_max ->
+     CstNsView.view text d = Some (S6.sem c)).
+Proof. exact parse_sound_and_complete_6u. Qed.
+Print Assumptions C08_parse_sound_and_complete_6u.
+
+End G16.
+
+(* ---- Proofs/NsRejMain.v ---- *)
+Module G17.
 Import CstNs.
 Theorem C08_ns_violation_rejected :
   forall (c : doc) (opt : options),
@@ -430,4 +473,26 @@ Theorem C08_ns_violation_rejected :
 Proof. exact ns_violation_rejected. Qed.
 Print Assumptions C08_ns_violation_rejected.
 
-End G15.
+End G17.
+
+(* ---- Proofs/CstFullNsRejMain.v ---- *)
+Module G18.
+Import RX.Spec.CstFull. Import RX.Spec.CstFullS4. Import RX.Spec.CstFullS6. Import RX.Proofs.CstNsView. Import RX.Proofs.CstFullS6Main. Import RX.Proofs.NsRejDefs. Import RX.Proofs.NsRejBuild. Import RX.Proofs.CstFullRejSem. Import RX.Proofs.CstFullRejTrace. Import RX.Proofs.CstFullRejDoc. Import RX.Proofs.CstFullRejMain. Import RX.Proofs.CstFullNsRejMain.
+Theorem C08_ns_violation_rejected_full_s6 :
+  forall (d : S6.doc) (opt : options) (cT : CstFull.doc bpieces) (tr : list Detector.lop),
+  wf_syntax6 d = true -> ginline6 d = Some (cT, tr) ->
+  Detector.within_limits 10 255 0 0 tr = true ->
+  provisos_item (d_root cT) = true ->
+  attrs_named_ok cT = true ->
+  (S6.has_dtd d = true -> allow_dtd opt = true) ->
+  N.of_nat (length (usem6 d cT)) < nodes_limit opt ->
+  N.of_nat (length (usem6 d cT)) < u32_max ->
+  N.of_nat (vattrs (usem6 d cT)) < u32_max ->
+  CstFull.distinct_decls_le bmeaning cT (N.to_nat 65535) ->
+  1 + N.of_nat (CstFull.ns_cost bmeaning cT) <= u32_max ->
+  forallb (ns_ok []) (den bmeaning (d_root cT)) = false ->
+  exists e, parse (S6.render d) opt = Err e /\ is_ns_error e = true.
+Proof. exact ns_violation_rejected_full_s6. Qed.
+Print Assumptions C08_ns_violation_rejected_full_s6.
+
+End G18.
